@@ -40,7 +40,7 @@ def mon_balance_output(case, portf, out, clause='balance.output'):
     nontrivial = False
     worst = (0., None)
     for node in portf.nodes:
-        cs = [cols[(a.name, n.name)] for a in portf.assets for n in a.nodes if n.name == node]
+        cs = list(dict.fromkeys(cols[(a.name, n.name)] for a in portf.assets for n in a.nodes if n.name == node))      # (an asset may list a node twice: one column)
         if not cs:
             continue
         sub = disp[cs].values.astype(float)
